@@ -137,6 +137,63 @@ impl Finding {
     }
 }
 
+/// Pinned observations: for every finding, the failing (oracle, case) keys recorded on the repaired tree
+/// with the hash of what was observed (`tools/pin_witnesses.py` writes known_witnesses/<P>-<tier>.txt).
+/// A finding covers a failure only if the failure is the recorded one: a recorded case that now fails
+/// differently, or (strict findings) a case that did not fail when the table was written, is a new
+/// violation. obs = 0 marks an observation that differs between runs of the unchanged tree.
+#[derive(Default)]
+pub struct Pins {
+    pub present: bool,
+    pub tables: BTreeMap<String, (bool, std::collections::HashMap<u64, u64>)>,
+}
+
+pub fn pin_key(f: &Failure) -> u64 {
+    hash_str(&format!("{}\u{0}{}", f.oracle, f.case))
+}
+
+pub fn load_pins(property: &str, tier: Tier) -> Pins {
+    let p = verif_dir().join("known_witnesses").join(format!("{property}-{}.txt", tier.name()));
+    let Ok(txt) = std::fs::read_to_string(&p) else {
+        return Pins::default();
+    };
+    let mut pins = Pins { present: true, tables: BTreeMap::new() };
+    let mut cur: Option<String> = None;
+    for l in txt.lines() {
+        if let Some(rest) = l.strip_prefix("# finding ") {
+            let mut it = rest.split_whitespace();
+            let id = it.next().unwrap_or("").to_string();
+            let strict = it.next().map(|x| x == "strict=1").unwrap_or(false);
+            pins.tables.insert(id.clone(), (strict, Default::default()));
+            cur = Some(id);
+        } else if let (Some(id), Some((a, b))) = (&cur, l.split_once(' ')) {
+            if let (Ok(k), Ok(o)) = (u64::from_str_radix(a, 16), u64::from_str_radix(b, 16)) {
+                pins.tables.get_mut(id).unwrap().1.insert(k, o);
+            }
+        }
+    }
+    pins
+}
+
+impl Pins {
+    /// Does the table of finding `id` cover this failure? (Ok) or why not (Err).
+    pub fn covers(&self, id: &str, f: &Failure) -> Result<(), &'static str> {
+        if !self.present {
+            return Ok(());
+        }
+        let Some((strict, map)) = self.tables.get(id) else {
+            return Err("this finding did not occur when the witness table was written");
+        };
+        match map.get(&pin_key(f)) {
+            Some(0) => Ok(()),
+            Some(o) if *o == hash_str(&f.observed) => Ok(()),
+            Some(_) => Err("the recorded case now fails differently"),
+            None if *strict => Err("this case did not fail when the witness table was written"),
+            None => Ok(()),
+        }
+    }
+}
+
 pub struct Report {
     pub property: String,
     pub tier: Tier,
@@ -207,14 +264,35 @@ impl Report {
     /// Attribute failures, write evidence + replay files, print protocol lines, and exit.
     pub fn finish(mut self) -> ! {
         let findings = load_findings(&self.property);
+        let pin_out = std::env::var_os("VCHECK_PIN").map(PathBuf::from);
+        let pins = if pin_out.is_some() { Pins::default() } else { load_pins(&self.property, self.tier) };
         let mut by_finding: BTreeMap<String, (String, Vec<Failure>)> = BTreeMap::new();
         let mut unattributed: Vec<Failure> = vec![];
-        for f in std::mem::take(&mut self.failures) {
+        for mut f in std::mem::take(&mut self.failures) {
+            // only the FIRST finding whose rule matches is considered, and its witness table must agree
             if let Some(k) = findings.iter().find(|k| k.matches(&f)) {
-                by_finding.entry(k.id.clone()).or_insert_with(|| (k.description.clone(), vec![])).1.push(f);
+                match pins.covers(&k.id, &f) {
+                    Ok(()) => by_finding.entry(k.id.clone()).or_insert_with(|| (k.description.clone(), vec![])).1.push(f),
+                    Err(why) => {
+                        f.observed = format!("[not the known finding {}: {why}]\n{}", k.id, f.observed);
+                        f.tags.push(format!("differs-from:{}", k.id));
+                        unattributed.push(f);
+                    }
+                }
             } else {
                 unattributed.push(f);
             }
+        }
+        if let Some(dir) = &pin_out {
+            // maintenance mode (tools/pin_witnesses.py): dump what each finding covered in this run
+            let _ = std::fs::create_dir_all(dir);
+            let mut txt = String::new();
+            for (id, (_, fs)) in &by_finding {
+                for f in fs {
+                    txt.push_str(&format!("{id} {:016x} {:016x}\n", pin_key(f), hash_str(&f.observed)));
+                }
+            }
+            let _ = std::fs::write(dir.join(format!("{}-{}.raw", self.property, self.tier.name())), txt);
         }
         for (id, (desc, fs)) in &by_finding {
             println!(
